@@ -62,7 +62,7 @@ class Check(BaseCheck):
 
     def correspond(self, drv, stats):
         fails = []
-        for case in self.problems(self.seed, 14 if self.quick else 150, 6 if self.quick else 60):
+        for case in self.problems(self.seed, 14 if self.quick else 900, 6 if self.quick else 300):
             kind, v, t, f = case["kind"], case["v"], case["t"], case["f"]
             gen.use(case)
             n = len(v)
